@@ -82,7 +82,11 @@ impl State {
     pub fn finish_object(&mut self, parent_state_stack: &mut Vec<State>) -> WriteResult {
         match self {
             State::Object(object_state) => {
-                if object_state.num_inserted != object_state.length * 2 {
+                // `length * 2` would overflow `usize` for lengths >= 2^31 on 32-bit targets,
+                // so compare the number of complete pairs instead.
+                if !object_state.num_inserted.is_multiple_of(2)
+                    || object_state.num_inserted / 2 != object_state.length
+                {
                     return WriteResult::ObjectLengthError;
                 }
                 *self = parent_state_stack.pop().unwrap_or(State::End);
